@@ -199,7 +199,7 @@ def gen_cases(ctx):
         raise Infra("case generation produced only %d cases" % len(cases))
     # named library types as top-level values (CreateKey / FullTypePath need a named top-level type)
     for top in ("S", "T1", "T2", "U", "V", "W", "Tagged", "Unexp", "Emb", "EmbPtr", "Simp", "PSimp", "Gen", "JM", "PJM", "TM",
-                "[]anyF", "[]anyP", "L1", "Str1", "Str2", "Col1", "Col2", "Col3", "[4]uint8", "[1]uint8", "[0]uint8", "BA4", "BS", "[]BS", "[][4]uint8", "N", "IS1", "IS64", "IP1"):
+                "[]anyF", "[]anyP", "L1", "Str1", "Str2", "Col1", "Col2", "Col3", "[4]uint8", "[1]uint8", "[0]uint8", "BA4", "BS", "[]BS", "[][4]uint8", "N", "IS1", "IS64", "IP1", "Tree", "List", "Node", "*Node", "[]Node", "P", "Ma"):
         for v in ("z", "n", "e"):
             if (top.startswith("[]") or top == "BS") and v == "z":
                 continue          # a nil top-level slice is not a struct value (null or [] are both fine)
